@@ -20,7 +20,7 @@ import time
 HERE = os.path.dirname(os.path.dirname(os.path.abspath(__file__)))
 VENV_PY = os.path.join(HERE, '.venv', 'bin', 'python')
 REAL_PY = '/venv/bin/python'
-EVID = os.path.join(HERE, 'evidence')
+EVID = os.environ.get('VF_EVIDENCE_DIR') or os.path.join(HERE, 'evidence')
 REPLAYS = os.path.join(EVID, 'replays')
 KF_FILE = os.path.join(HERE, 'known_findings.json')
 
@@ -30,7 +30,10 @@ CALL_RE = re.compile(r'when calling (?P<fn>\w+)\((?P<args>.*?)\)(?: \(which (?:r
 
 def env_for(tier, seed):
     e = dict(os.environ)
-    e['PYTHONPATH'] = HERE
+    # VF_REPO_SRC (default /repo/src): the tree under analysis; used by the import hook, by engine B and - through
+    # PYTHONPATH - by the replays on the unmodified package
+    src = os.environ.get('VF_REPO_SRC')
+    e['PYTHONPATH'] = (src + os.pathsep + HERE) if src else HERE
     e['VERIF_TIER'] = tier
     e['VERIF_SEED'] = str(seed)
     for k in ('OMP_NUM_THREADS', 'OPENBLAS_NUM_THREADS', 'MKL_NUM_THREADS'):
